@@ -322,6 +322,9 @@ class DULServiceProvider(Thread):
         try:
             # Decode the PDU data, get corresponding FSM event
             pdu, event = self._decode_pdu(bytestream)
+            # A PDU with parameter values that can't be converted to the
+            #   corresponding primitive is an invalid PDU
+            pdu.to_primitive()
             self.event_queue.put(event)
         except Exception as exc:
             # READ_PDU_EXC_F
